@@ -24,6 +24,7 @@ _T = [
     ("vkreuse",       "^TestC11_VkReuse$",       (10, 4, 200, 80)),
     ("srs",           "^TestC11_SRS$",           (6, 3, 60, 25)),
     ("generic",       "^TestC11_GenericSRS$",    (4, 4, 40, 40)),
+    ("dumpstream",    "^TestC11_DumpStream$",    (2, 2, 20, 20)),
 ]
 
 _jobs = []
@@ -64,6 +65,13 @@ PROP = dict(
         "MpcSetup, shplonk/fflonk OpeningProof) is run, in every case, on a fresh receiver and on used receivers that already hold other "
         "material of a smaller, an equal and a larger size than the decoded object (VerifyingKey and OpeningProof have no size: fresh/used); "
         "afterwards the receiver must equal the source field by field incl. lengths, re-encode byte-exactly, and verify / seal / commit-open-verify",
+        "input purity: after every Verify / FoldProof / BatchVerifySinglePoint / BatchVerifyMultiPoints call the adapter compares the native "
+        "digests, proof (H and every claimed value), points, extra transcript data and the verifying key bit by bit with snapshots taken before "
+        "the call, then makes the same call again on the same native objects and requires the same verdict (and folded value)",
+        "batch sizes include 15, 16, 17, 31, 32, 33, 64 (block / window thresholds) in the honest, frontier, tamper and key-reuse jobs",
+        "SRS dumps are read from seekable readers (bytes.Reader, a file) and from plain / short-read wrappers, for maxPkPoints absent, <, = and > "
+        "the stored length: a complete dump leaves the reader exactly at its end (the following object on the stream decodes), every truncated "
+        "dump (in the header, in the kept points, at the boundary, in the skipped tail, one byte short) is an error",
         "every job runs on all 7 pairing curves in both tiers (no rotation); the four core curves only get more cases",
     ],
     mandatory_all=["len:1", "len:size", "p:zero", "z:root", "z:tau", "tuple:accept", "tuple:reject", "batch>=2",
@@ -76,6 +84,9 @@ PROP = dict(
                   + ["recv:%s:%s" % (o, r) for o in ("SRS", "ProvingKey", "SRS.dump", "BatchOpeningProof", "MpcSetup",
                                                      "shplonk.OpeningProof", "fflonk.OpeningProof")
                      for r in ("fresh", "smaller", "equal", "larger")]
+                  + ["dump:seekable_reader", "dump:truncated_in_skipped_tail", "dump:truncated_at_boundary", "dump:truncated_in_kept_points",
+                     "dump:truncated_one_byte_short", "dump:max<len", "dump:max=len", "dump:max>len", "dump:maxabsent",
+                     "batch>=16", "purity:proof_after_verify", "purity:same_call_repeated"]
                   + ["recv:VerifyingKey:fresh", "recv:VerifyingKey:used", "recv:OpeningProof:fresh", "recv:OpeningProof:used"],
     jobs=_jobs,
 )
